@@ -141,10 +141,16 @@ namespace Pistache::Tcp
                     }
                     else if (isTimerFd(tag))
                     {
-                        auto it      = timers.find(static_cast<decltype(timers)::key_type>(tag.value()));
-                        auto& entry_ = it->second;
+                        // taken out of the table under the lock; the continuation of
+                        // the timer runs without it
+                        std::unique_lock<Lock> timersGuard(timersLock);
+                        auto it = timers.find(static_cast<decltype(timers)::key_type>(tag.value()));
+                        if (it == std::end(timers))
+                            continue;
+                        TimerEntry entry_(std::move(it->second));
+                        timers.erase(it);
+                        timersGuard.unlock();
                         handleTimer(std::move(entry_));
-                        timers.erase(it->first);
                     }
                 }
             }
@@ -153,6 +159,9 @@ namespace Pistache::Tcp
 
     void Transport::disarmTimer(Fd fd)
     {
+        // may be called from any thread (a response sent by an application
+        // thread disarms its time-out)
+        Guard guard(timersLock);
         auto it = timers.find(fd);
         if (it == std::end(timers))
             throw std::runtime_error("Timer has not been armed");
@@ -447,11 +456,14 @@ namespace Pistache::Tcp
     void Transport::armTimerMsImpl(TimerEntry entry)
     {
 
-        auto it = timers.find(entry.fd);
-        if (it != std::end(timers))
         {
-            entry.deferred.reject(std::runtime_error("Timer is already armed"));
-            return;
+            Guard guard(timersLock);
+            auto it = timers.find(entry.fd);
+            if (it != std::end(timers))
+            {
+                entry.deferred.reject(std::runtime_error("Timer is already armed"));
+                return;
+            }
         }
 
         itimerspec spec;
@@ -479,6 +491,7 @@ namespace Pistache::Tcp
 
         reactor()->registerFdOneShot(key(), entry.fd, NotifyOn::Read,
                                      Polling::Mode::Edge);
+        Guard guard(timersLock);
         timers.insert(std::make_pair(entry.fd, std::move(entry)));
     }
 
@@ -607,6 +620,7 @@ namespace Pistache::Tcp
 
     bool Transport::isTimerFd(Fd fd) const
     {
+        Guard guard(timersLock);
         return timers.find(fd) != std::end(timers);
     }
 
